@@ -254,6 +254,121 @@ pub fn boundary_queries() -> Vec<&'static str> {
     ]
 }
 
+/// characters at the edges of the ranges of RFC 9535's grammar and characters that tools tend to
+/// treat specially (DEL and C1 controls, no-break / zero-width / line-separator characters, the
+/// byte order mark, non-characters, the surrogate neighbours, the last code point)
+pub fn notable_chars() -> Vec<char> {
+    vec![
+        '\u{20}', '\u{21}', '\u{7e}', '\u{7f}', '\u{80}', '\u{85}', '\u{9f}', '\u{a0}', '\u{ad}', '\u{200b}', '\u{2028}', '\u{2029}', '\u{2060}', '\u{3000}', '\u{d7ff}', '\u{e000}', '\u{feff}', '\u{fffd}', '\u{fffe}', '\u{ffff}', '\u{10000}',
+        '\u{1f600}', '\u{10fffe}', '\u{10ffff}', '\u{0}', '\u{1f}',
+    ]
+}
+
+/// every notable character at every kind of position of a query: raw inside quoted names and
+/// string literals, in shorthand names, and outside any token (before `$`, after the query,
+/// between tokens). The strings are candidates: the recognisers decide which are valid.
+pub fn notable_char_strings() -> Vec<String> {
+    let mut v = vec![];
+    for c in notable_chars() {
+        for t in [
+            "$['{}']", "$[\"{}\"]", "$['a{}b']", "$['{}{}']", "$..['{}']", "$['a','{}']", "$[?@.a == '{}']", "$[?@.a == \"x{}\"]", "$[?@['{}'] == 1]", "$[?match(@.a, '{}')]", "$[?length('{}') == 1]", "$.{}", "$.a{}", "$.{}a", "$..{}", "$.a.{}.b", "$[?@.{} == 1]",
+            "$[?$.{}]", "{}$.a", "$.a{}", "{}$", "${}", "${}.a", "$[{}0]", "$[0{}]", "$[0{}:1]", "$[?{}@.a]", "$[?@.a{}==1]", "$[?@.a=={}1]", "$[?@.a &&{}@.b]", "$[?length({}@.a) == 1]", "$[?length(@.a{}) == 1]", "$.a{}.b", "$.a.{}b", "$[{}'a']", "$['a'{}]", "$[{}]",
+        ] {
+            v.push(t.replace("{}", &c.to_string()));
+        }
+    }
+    v.sort();
+    v.dedup();
+    v
+}
+
+/// long valid queries made of multi-byte characters (2, 3 and 4 bytes per character) shifted by
+/// 0..3 ASCII bytes, so that every power-of-two byte offset up to 4096 falls inside a character in
+/// some of them - for every token kind that can be long
+pub fn long_multibyte_queries() -> Vec<String> {
+    let mut v = vec![];
+    for (ch, n) in [('\u{e9}', 2300usize), ('\u{20ac}', 1500), ('\u{1f600}', 1100), ('\u{44f}', 300), ('\u{65e5}', 200)] {
+        for pad in 0..4usize {
+            let body = format!("{}{}", "a".repeat(pad), ch.to_string().repeat(n));
+            v.push(format!("$['{}']", body));
+            v.push(format!("$[\"{}\"]", body));
+            v.push(format!("$.{}", body));
+            v.push(format!("$..{}", body));
+            v.push(format!("$[?@.t == '{}']", body));
+            v.push(format!("$[?@['{}'] == '{}' || @.a]", body, body));
+            v.push(format!("$[?length('{}') > 1]", body));
+            v.push(format!("$[?search(@.t, '{}')]", body));
+            v.push(format!("$.a['{}', 'b'].c", body));
+        }
+    }
+    v
+}
+
+/// conjunction / disjunction shapes of 3 and 4 operands placed in every context a logical
+/// expression can occur in (top-level filter, filter inside a function argument, nested filters,
+/// descendant segment, union member)
+pub fn composition_queries() -> Vec<String> {
+    let formulas = [
+        "@.x && @.y == 1 && @.z",
+        "@.x || @.y == 1 && @.z || @.w != 'q'",
+        "@.x && @.y == 1 && @.z && @.w != 'q'",
+        "@.x || @.y == 1 || @.z",
+        "!@.x && !@.y && @.z",
+        "(@.x || @.y == 1) && @.z && @.w != 'q'",
+        "@.x && (@.y == 1 || @.z) && !(@.w != 'q' && @.x)",
+    ];
+    let contexts = [
+        "$[?F]", "$[?count(@.a[?F]) == 1]", "$[?value(@.a[?F]) == 1]", "$[?length(value(@[?F])) > 0]", "$[?match(value(@.a[?F]), 'x')]", "$[?@.a[?F]]", "$[?@[?@[?F]]]", "$[?count(@.a[?count(@.b[?F]) > 0]) > 0]", "$..[?F]", "$[0, ?F]", "$[?F, ?F]",
+        "$[?search(value(@..a[?F]), 'x') || count($.b[?F]) > 1]", "$.a[?F].b[?F]",
+    ];
+    let mut v = vec![];
+    for c in contexts {
+        for f in formulas {
+            v.push(c.replace('F', f));
+        }
+    }
+    v
+}
+
+/// segments with many selectors (2 .. 100): names only, indices only, mixed with slices and
+/// wildcards; written out of document order and with repeats. Aimed at the wide documents of
+/// `boundary_docs` (member names k0000.., arrays of >= 15 elements).
+pub fn long_union_queries(seed: u64) -> Vec<Query> {
+    let mut out = vec![];
+    let mut rng = Rng::stream(seed, 77);
+    for &k in &[2usize, 3, 5, 8, 15, 16, 17, 31, 32, 33, 64, 65, 100] {
+        for kind in 0..4 {
+            let mut sels = vec![];
+            for p in 0..k {
+                let name = |r: &mut Rng| Selector::Name(format!("k{:04}", r.below(15)));
+                let index = |r: &mut Rng| Selector::Index(r.below(30) as i64 - 15);
+                sels.push(match kind {
+                    0 => name(&mut rng),
+                    1 => index(&mut rng),
+                    2 => {
+                        // descending names, then one repeat in the middle
+                        if p == k / 2 { Selector::Name("k0000".into()) } else { Selector::Name(format!("k{:04}", (k - 1 - p) % 15)) }
+                    }
+                    _ => match rng.below(6) {
+                        0 => name(&mut rng),
+                        1 | 2 => index(&mut rng),
+                        3 => Selector::Slice(Some(rng.below(8) as i64), Some(rng.below(16) as i64), Some([1, 2, -1, 3][rng.below(4) as usize])),
+                        4 => Selector::Wildcard,
+                        _ => Selector::Name("a".into()),
+                    },
+                });
+            }
+            out.push(Query::root(vec![Segment::children(sels.clone())]));
+            out.push(Query::root(vec![Segment::children(sels.clone()), Segment::child(Selector::Name("a".into()))]));
+            if k <= 33 {
+                out.push(Query::root(vec![Segment { descendant: true, selectors: sels.clone() }]));
+                out.push(Query::root(vec![Segment::child(Selector::Wildcard), Segment::children(sels)]));
+            }
+        }
+    }
+    out
+}
+
 #[derive(Debug, Clone)]
 pub struct DocCfg {
     pub max_depth: usize,
